@@ -170,3 +170,40 @@ fn vc12_dcep_marshal_roundtrip() {
     leak(w); leak(d); leak(o);
 }
 
+
+fn pr_record(tsn: u32, ssn: u16, flags: u8, max_r: u16, tx_count: u32, acked: bool, now: Instant) -> ChunkRecord {
+    ChunkRecord { payload: data_chunk(tsn, 1, ssn, DATA_CHANNEL_PPID_BINARY, &[7]), sent_time: now, transmit_count: tx_count, missing_reports: 0, abandoned: false,
+        fast_retransmit: false, needs_retransmit: false, fast_retransmit_time: None, in_flight: !acked, acked,
+        stream_id: 1, ssn, flags, max_retransmits: Some(max_r), expiry: None }
+}
+
+// @h name=vc12_prsctp_forward_tsn tier=experimental timeout=900
+// @fn SctpInner::update_advanced_peer_ack_point, SctpInner::should_abandon, SctpInner::create_forward_tsn_chunk
+// @stub std::time::Instant::now -> fixed instant
+// @bound partially-reliable channel (max_retransmits 0); the oldest outstanding chunk (TSN n = 2^32-1) has exhausted its retransmissions; the association's RECEIVE-side cumulative TSN (peer's TSN space, unrelated to n) is symbolic
+// @oracle the chunk is abandoned, the advanced peer ack point moves to n and a FORWARD-TSN carrying n and the stream's SSN is produced -- whatever TSNs the peer happens to use in the other direction (an abandoned message must be skipped, not block the channel)
+#[kani::proof]
+#[kani::unwind(6)]
+#[kani::stub(std::time::Instant::now, now_stub)]
+#[kani::stub(std::backtrace::Backtrace::capture, bt_stub)]
+fn vc12_prsctp_forward_tsn() {
+    let rig = Rig::new(true, SctpState::Connected);
+    let inner = rig.inner();
+    let n: u32 = u32::MAX; let peer_cum: u32 = kani::any(); let ssn: u16 = 9;
+    inner.next_tsn.store(n.wrapping_add(1), Ordering::SeqCst);
+    inner.advanced_peer_ack_tsn.store(n.wrapping_sub(1), Ordering::SeqCst); // as set when the association came up / last advanced
+    inner.cumulative_tsn_ack.store(peer_cum, Ordering::SeqCst);
+    inner.has_pr_sctp.store(true, Ordering::Relaxed);
+    inner.sent_queue.lock().insert(n, pr_record(n, ssn, 3, 0, 2, false, now_stub()));
+    inner.flight_size.store(17, Ordering::SeqCst);
+    inner.update_advanced_peer_ack_point();
+    assert!(inner.advanced_peer_ack_tsn.load(Ordering::SeqCst) == n, "abandoned chunk at the head of the queue did not advance the peer ack point");
+    assert!(inner.forward_tsn_pending.load(Ordering::SeqCst) && inner.sent_queue.lock().is_empty());
+    let f = inner.create_forward_tsn_chunk();
+    match &f {
+        Some(c) => { assert!(c.len() == 12 && c[0] == CT_FORWARD_TSN && u32::from_be_bytes([c[4], c[5], c[6], c[7]]) == n && u16::from_be_bytes([c[8], c[9]]) == 1 && u16::from_be_bytes([c[10], c[11]]) == ssn, "FORWARD-TSN does not carry the abandoned TSN / stream / SSN"); }
+        None => assert!(false, "no FORWARD-TSN produced for an abandoned message"),
+    }
+    kani::cover!(peer_cum == 5, "peer TSN space serially after ours");
+    leak(f); leak(rig);
+}
